@@ -27,8 +27,8 @@ def main(run):
     # bounded / replay layer: the real function, real files, every crash point
     from rt import crash
     rows_ = []
-    for earlier in ((0, 2) if run.tier == "quick" else (0, 1, 2, 3, 5)):
-        for rows, cols in [(1, 1), (4, 3)] if run.tier == "quick" else shapes + [(60, 40)]:
+    for earlier in ((0, 2) if run.tier == "quick" else (0, 1, 3)):
+        for rows, cols in [(1, 1), (4, 3)] if run.tier == "quick" else shapes + ([(60, 40)] if earlier == 1 else []):
             bad = crash.crash_sweep(earlier, rows, cols)
             run.native_evals += 1
             run.native_distinct.add(("crash", earlier, rows, cols))
